@@ -130,7 +130,7 @@ def prog_id(spec):
 
 def build(spec, seed=0):
     torch.manual_seed(seed)
-    kw = {k: v for k, v in spec.items() if k not in ('fam', 'w', 'a', 'wtype', 'id', 'tier', 'seed', 'selftest', 'mps', 'a_in', 'clip', 'ties')}
+    kw = {k: v for k, v in spec.items() if k not in ('fam', 'w', 'a', 'wtype', 'id', 'tier', 'seed', 'selftest', 'mps', 'a_in', 'clip', 'ties', 'frozen_q')}
     m = FAMILIES[spec['fam']](**kw)
     dyadic_init(m, seed, den=8, lim=8)
     if spec['fam'] == 'M1A':
